@@ -8,6 +8,7 @@ use crate::util::*;
 use crate::wraps::*;
 
 fn one<B: Backend>(rep: &mut Report, kind: Wk, key_raw: &[u8], s: &Secrets, sub: &str) {
+    crate::noise::sprinkle::<B>();
     let class = format!("{}.{}.{sub}", B::NAME, kind.name());
     let h = fnv_parts(&[B::NAME.as_bytes(), kind.name().as_bytes(), key_raw, &s.wk, &s.pass, &s.pw_params, &s.pke_pk]);
     let sig = format!("C05|{}|{}", B::NAME, kind.name());
@@ -62,7 +63,7 @@ fn one<B: Backend>(rep: &mut Report, kind: Wk, key_raw: &[u8], s: &Secrets, sub:
 }
 
 /// a PKE key pair from explicit secret material (Ed25519 seed / P-384 scalar)
-fn pke_pair_from<B: Backend>(secret: &[u8]) -> Option<(Vec<u8>, Vec<u8>)> {
+pub fn pke_pair_from<B: Backend>(secret: &[u8]) -> Option<(Vec<u8>, Vec<u8>)> {
     match B::VER {
         3 => {
             use p384::elliptic_curve::sec1::ToEncodedPoint;
